@@ -48,6 +48,23 @@ import (
 // non-empty: ":after-nonmember-unsubscribe", ":after-deeper-entry-removed" (subscription or
 // retained message beneath the group's node), ":after-retained-cleared-at-group-node".
 //
+// Departures ("leave", with "p2": own scenarios): the property quantifies over every publish, also those that
+// follow a change of membership after the group has already been served. With a pool of
+// two publishes ("p2" in the pools) the search reaches sub* pub (un)sub* pub; "leave" adds
+// the other ways in which a member's subscription ends while the rest of the group stays:
+//   bye:<client>     DISCONNECT of a clean-start client (Session Expiry 0): its session, and with it every
+//                    subscription it held, ends [MQTT-3.1.2-23, MQTT-4.1.0-2]; the client does not come back
+//   new:<client>     the client opens a second connection with Clean Start 1: the old connection is taken
+//                    over and the old session discarded [MQTT-3.1.2-4]; the client stays online without subscriptions
+//   cut:<client>     ("leavecut" only) the peer closes the connection without DISCONNECT; same consequences as bye
+// Departures draw on the pool of UNSUBSCRIBEs (u<n> bounds UNSUBSCRIBEs + departures).
+// "sym" switches the symmetry reduction on without the extended filters; "q0" leaves the
+// QoS 1 publish out of the pool. In the "leave" scenarios a group that is
+// left unserved after one of its members left while others stayed carries ":after-member-left";
+// a receiver without a matching subscription that used to be a member of a matching group
+// which has had members ever since is reported as "c06:unentitled-received:former-member"
+// (":former-subscriber" for a non-shared filter that others still hold).
+//
 // Oracle (from the property statement only): R = clients that received the tag (online
 // now, or on resuming a persistent session when the delivered QoS is > 0). There must be
 // a choice function g -> member(g) over the matching groups with
@@ -66,6 +83,50 @@ type c06Model struct {
 	retained map[string]bool // topics holding a retained message
 	nret     int
 	cause    map[string]bool // shared filter key k + "|" + cause (what disturbed the group's index entry since it became non-empty)
+	// departures
+	former map[string]bool // "client|k": the client held k, gave it up while others kept holding it, and k has been held by somebody ever since
+	nleave int
+	track  bool // "leave" scenarios: departures from a group that keeps other members are remembered (former, cause after-member-left)
+}
+
+// drop ends client cl's subscription k (UNSUBSCRIBE by its holder, or the end of the
+// holder's session) and records what that means for the groups.
+func (m *c06Model) drop(cl, k string) {
+	if !m.subs[cl+"|"+k] {
+		return
+	}
+	delete(m.subs, cl+"|"+k)
+	if m.members(k) == 0 {
+		// nobody holds k any more: what happened to it earlier no longer matters
+		for _, c := range explore.SortedKeys(m.cause) {
+			if strings.HasPrefix(c, k+"|") {
+				delete(m.cause, c)
+			}
+		}
+		for _, c := range explore.SortedKeys(m.former) {
+			if strings.HasSuffix(c, "|"+k) {
+				delete(m.former, c)
+			}
+		}
+		if !ref.IsShare(c06Filters[k]) {
+			m.entryRemoved(c06Filters[k], false)
+		}
+		return
+	}
+	if !m.track {
+		return
+	}
+	m.former[cl+"|"+k] = true
+	if ref.IsShare(c06Filters[k]) {
+		m.cause[k+"|after-member-left"] = true
+	}
+}
+
+// endSession ends every subscription of cl (in filter order).
+func (m *c06Model) endSession(cl string) {
+	for _, k := range []string{"1", "2", "3", "4", "5", "6"} {
+		m.drop(cl, k)
+	}
 }
 
 // c06Inner returns the topic filter of a (shared or plain) subscription filter.
@@ -106,7 +167,7 @@ func (m *c06Model) entryRemoved(path string, retained bool) {
 
 func (m *c06Model) causesOf(k string) string {
 	out := ""
-	for _, c := range []string{"after-nonmember-unsubscribe", "after-deeper-entry-removed", "after-retained-cleared-at-group-node"} {
+	for _, c := range []string{"after-nonmember-unsubscribe", "after-deeper-entry-removed", "after-retained-cleared-at-group-node", "after-member-left"} {
 		if m.cause[k+"|"+c] {
 			out += ":" + c
 		}
@@ -132,6 +193,8 @@ var c06PathFuncs = map[string]bool{"SelectShared": true, "MergeSharedSelected": 
 func c06Ext(arg string) (ext bool, retTopics []string, sym bool) {
 	for _, a := range strings.Split(arg, ",") {
 		switch a {
+		case "sym":
+			sym = true
 		case "ext":
 			ext = true
 		case "ret":
@@ -140,7 +203,21 @@ func c06Ext(arg string) (ext bool, retTopics []string, sym bool) {
 			retTopics = []string{"x/y", "x/y/z"}
 		}
 	}
-	return ext, retTopics, ext || len(retTopics) > 0
+	return ext, retTopics, sym || ext || len(retTopics) > 0
+}
+
+// c06Leave returns the departure kinds of a scenario argument ("leave": bye and new;
+// "leavecut": cut as a third kind). Departures draw on the pool of UNSUBSCRIBEs.
+func c06Leave(arg string) (kinds []string) {
+	for _, a := range strings.Split(arg, ",") {
+		switch a {
+		case "leave":
+			return []string{"bye", "new"}
+		case "leavecut":
+			return []string{"bye", "cut", "new"}
+		}
+	}
+	return nil
 }
 
 func c06Pools(arg string) (maxSub, maxPub, maxUnsub, mapBound int, off bool) {
@@ -163,6 +240,7 @@ func c06Pools(arg string) (maxSub, maxPub, maxUnsub, mapBound int, off bool) {
 func c06Once(arg string, hist []string, last []int, enumerate bool) c06Res {
 	maxSub, maxPub, maxUnsub, _, off := c06Pools(arg)
 	ext, retTopics, symRed := c06Ext(arg)
+	leaveKinds := c06Leave(arg)
 	// choice prefix of the whole execution = vectors of earlier alt'ed publishes + last
 	var prefix []int
 	for i, op := range hist {
@@ -172,7 +250,7 @@ func c06Once(arg string, hist []string, last []int, enumerate bool) c06Res {
 	}
 	prefix = append(prefix, last...)
 	h := &H{W: world.New(prefix, world.Config{MapSite: func(site string) bool { return c06PathFuncs[siteFunc(site)] }}), Cl: map[string]*world.Client{}}
-	m := &c06Model{subs: map[string]bool{}, online: map[string]bool{"a": true, "b": true, "c": true}, acted: map[string]bool{}, retained: map[string]bool{}, cause: map[string]bool{}}
+	m := &c06Model{subs: map[string]bool{}, online: map[string]bool{"a": true, "b": true, "c": true}, acted: map[string]bool{}, retained: map[string]bool{}, cause: map[string]bool{}, former: map[string]bool{}, track: leaveKinds != nil}
 	res := c06Res{}
 	h.connect("p", world.ConnectPacket("p", 4, true))
 	h.connect("a", world.ConnectPacket("a", 5, true))
@@ -201,30 +279,45 @@ func c06Once(arg string, hist []string, last []int, enumerate bool) c06Res {
 				t = ref.UNSUBSCRIBE
 				m.nunsub++
 				held := m.subs[cl+"|"+k]
-				delete(m.subs, cl+"|"+k)
-				switch {
-				case !held && ref.IsShare(c06Filters[k]):
+				if held {
+					m.drop(cl, k)
+				} else if ref.IsShare(c06Filters[k]) {
 					// a non-member's UNSUBSCRIBE removes nothing [MQTT-3.10.4-1: only the client's own subscription]
 					m.disturb("after-nonmember-unsubscribe", func(k2, _ string) bool { return k2 == k })
-				case held && ref.IsShare(c06Filters[k]):
-					if m.members(k) == 0 {
-						for c := range m.cause {
-							if strings.HasPrefix(c, k+"|") {
-								delete(m.cause, c)
-							}
-						}
-					}
-				case held && m.members(k) == 0:
-					m.entryRemoved(c06Filters[k], false)
 				}
 			} else {
 				m.nsub++
 				m.subs[cl+"|"+k] = true
+				delete(m.former, cl+"|"+k)
 			}
 			got := h.do(cl, ref.Packet{Type: t, PacketID: pid, Filters: []ref.Filter{{Filter: c06Filters[k], Opts: 1}}})
 			if f[0] == "sub" && (len(got) == 0 || got[0].Type != ref.SUBACK || len(got[0].ReasonCodes) != 1 || got[0].ReasonCodes[0] > 2) {
 				h.violate("c06:subscribe-refused", "SUBSCRIBE %s by %s not granted: %v", c06Filters[k], cl, got)
 			}
+		case "bye", "cut", "new":
+			// the session of a clean-start client ends: all its subscriptions end with it
+			cl := f[1]
+			m.nleave++
+			if symRed {
+				m.acted[cl] = true
+			}
+			m.endSession(cl)
+			switch f[0] {
+			case "bye":
+				m.online[cl] = false
+				h.do(cl, ref.Packet{Type: ref.DISCONNECT})
+			case "cut":
+				m.online[cl] = false
+				h.Cl[cl].Drop()
+				h.logf("%s: connection closed by the peer", cl)
+				h.W.Run()
+			case "new":
+				got := h.connectSettle(cl, world.ConnectPacket(cl, 5, true), true)
+				if len(got) == 0 || got[0].Type != ref.CONNACK || got[0].ReasonCode != 0 {
+					h.violate("c06:reconnect-refused", "CONNECT (Clean Start) of %s on a second connection not accepted: %v", cl, got)
+				}
+			}
+			h.settle(true)
 		case "disc":
 			m.online["c"] = false
 			h.do("c", ref.Packet{Type: ref.DISCONNECT})
@@ -283,7 +376,10 @@ func c06Once(arg string, hist []string, last []int, enumerate bool) c06Res {
 	// enabled operations
 	var next []string
 	if m.npub < maxPub {
-		next = append(next, "pub:x/y:0", "pub:x/y:1", "pub:x/z:0")
+		next = append(next, "pub:x/y:0", "pub:x/z:0")
+		if !strings.Contains(","+arg+",", ",q0,") {
+			next = append(next, "pub:x/y:1")
+		}
 		filters := []string{"1", "2", "3", "4"}
 		if ext {
 			filters = append(filters, "5", "6")
@@ -299,6 +395,11 @@ func c06Once(arg string, hist []string, last []int, enumerate bool) c06Res {
 			}
 			if !m.online[cl] {
 				continue
+			}
+			if m.nunsub+m.nleave < maxUnsub && !(off && cl == "c") {
+				for _, kind := range leaveKinds {
+					next = append(next, kind+":"+cl)
+				}
 			}
 			for _, k := range filters {
 				if m.subs[cl+"|"+k] {
@@ -340,8 +441,8 @@ func c06Once(arg string, hist []string, last []int, enumerate bool) c06Res {
 }
 
 func c06Key(h *H, m *c06Model) string {
-	return h.W.State() + fmt.Sprintf("|model:%v|%v|%d,%d,%d,%d|%v|%v,%d|%v", explore.SortedKeys(m.subs), m.online, m.nsub, m.npub, m.nunsub, m.nconn,
-		explore.SortedKeys(m.acted), explore.SortedKeys(m.retained), m.nret, explore.SortedKeys(m.cause))
+	return h.W.State() + fmt.Sprintf("|model:%v|%v|%d,%d,%d,%d|%v|%v,%d|%v|%v,%d", explore.SortedKeys(m.subs), m.online, m.nsub, m.npub, m.nunsub, m.nconn,
+		explore.SortedKeys(m.acted), explore.SortedKeys(m.retained), m.nret, explore.SortedKeys(m.cause), explore.SortedKeys(m.former), m.nleave)
 }
 
 // c06Judge evaluates one executed publish.
@@ -355,7 +456,7 @@ func c06Judge(h *H, m *c06Model, topic, tag string, q byte, got map[string][]ref
 		}
 	}
 	invisible := map[string]bool{}
-	if !m.online["c"] {
+	if off && !m.online["c"] {
 		if q == 0 {
 			invisible["c"] = true
 		} else {
@@ -406,7 +507,16 @@ func c06Judge(h *H, m *c06Model, topic, tag string, q byte, got map[string][]ref
 			h.violate("c06:two-copies:"+shape(cl), "publish %s %q q%d: %s received %d copies; groups=%v nonshared=%v", tag, topic, q, cl, copies[cl], groups, explore.SortedKeys(ns))
 		}
 		if copies[cl] > 0 && shape(cl) == "unentitled" {
-			h.violate("c06:unentitled-received", "publish %s %q: %s received it without a matching subscription; groups=%v", tag, topic, cl, groups)
+			was := ""
+			for _, k := range []string{"4", "1", "2", "3"} {
+				if m.former[cl+"|"+k] && ref.MatchSub(c06Filters[k], topic) {
+					was = ":former-subscriber"
+					if ref.IsShare(c06Filters[k]) {
+						was = ":former-member"
+					}
+				}
+			}
+			h.violate("c06:unentitled-received"+was, "publish %s %q: %s received it without a matching subscription; groups=%v", tag, topic, cl, groups)
 		}
 		if ns[cl] && copies[cl] == 0 && !invisible[cl] {
 			h.violate("c06:nonshared-missed:"+shape(cl), "publish %s %q: %s holds a matching non-shared subscription and received nothing; groups=%v", tag, topic, cl, groups)
@@ -567,9 +677,9 @@ func init() {
 			arg    string
 			budget time.Duration
 		}
-		scen := []sc{{"s2p1u1,map1,ext", 20 * time.Second}, {"s2p1u0,map1,ret", 10 * time.Second}, {"s4p1u1,map1", 45 * time.Second}, {"s3p1u0,map1,off", 25 * time.Second}}
+		scen := []sc{{"s2p2u1,map1,sym,leave,q0", 45 * time.Second}, {"s2p1u1,map1,ext", 20 * time.Second}, {"s2p1u0,map1,ret", 10 * time.Second}, {"s3p1u0,map1,off", 25 * time.Second}, {"s4p1u1,map1", 45 * time.Second}}
 		if !c.Quick() {
-			scen = []sc{{"s3p1u2,map1,ext", 70 * time.Second}, {"s3p1u1,map1,ret2", 25 * time.Second}, {"s2p1u1,map1,ext,ret,off", 25 * time.Second},
+			scen = []sc{{"s2p2u1,map1,leavecut", 100 * time.Second}, {"s3p1u2,map1,ext", 70 * time.Second}, {"s3p1u1,map1,ret2", 25 * time.Second}, {"s2p1u1,map1,ext,ret,off", 25 * time.Second},
 				{"s5p1u0,map1", 4 * time.Minute}, {"s4p1u1,map2", 150 * time.Second}, {"s3p2u1,map1", 90 * time.Second}, {"s4p1u1,map1,off", 2 * time.Minute}}
 		}
 		tot := map[string]int64{}
